@@ -1,3 +1,4 @@
+import J5V.Codec.QuerySteps
 import J5V.Codec.DecodeProofs
 import J5V.Json.TokenProofs
 import J5V.Json.SizeProofs
@@ -67,7 +68,17 @@ decoding the value again one level deeper — is at most `2 · anyFactor c` step
 document, where `anyFactor c = maxAnyDepth - c.anyDepth + 1 ≤ 101`: every node is visited a bounded
 number of times. For every environment (no hypothesis), every root, both modes, every tree.
 Before repair 309b762 there was no such bound: nested `Any` values were re-read at every level
-(and in the real code re-marshalled: cubic time). -/
+(and in the real code re-marshalled: cubic time). 
+What is counted (and what is not): the cost function is hand-written (`Codec/Steps.lean`) and counts
+VISITS of document nodes — one per `decodeValue` call, loop iteration and terminator, the re-scan of an
+`Any` value, the nested decode. Per visit, scalar conversion costs 1 (it is linear in the token, by
+assumption on `strconv` / `decimal` — the decimal exponent guard 158a5b4 is not visible here), and
+`createField` / `seen.contains`, `findProp`, `acc ++ [pv]`, the duplicate-key check `mget`, `finalType`,
+`updPath` and error-path construction (69f067c) cost NOTHING in this count although they are linear in
+the schema size / the number of members read so far in the model. So the theorem says: every node
+is visited at most `2 · anyFactor c ≤ 202` times; it does not by itself say "time linear in `|bs|`" —
+the per-visit cost is bounded by the schema and member count, not modelled, and wall time is observed
+only by the Go-side `codec.stress` / `codec.fuzz` time bounds. -/
 theorem C06_linear_tree (c : Cfg) (root : String) (t : PTree) :
     decRootTreeN c root t ≤ anyFactor c * (2 * t.size) :=
   decRootTreeN_le c root t
@@ -139,6 +150,33 @@ example : decRootTreeN { env := sampleEnv, O := default } "t.M"
 example : decRootTreeN { env := sampleEnv, O := default } "t.M"
     (.obj (.cons (ascii "kids") [] (.arr (.cons (.obj (.nil .closed)) (.nil .closed))) (.nil .closed))) = 8 := by
   decide
+
+/-- **step bound of URL-query decoding** (round 4): `decodeQueryN` (`Codec/QuerySteps.lean`) counts the
+steps of `Codec.QueryToProto` in the style of `decRootTreeN` — same recursion as `decodeQuery` /
+`queryKey`, continuing with the decoder's own intermediate states: one step per key, one per byte of
+the key (`strings.Split`), one per path segment (`propertyAtPath`), one per value, and for a
+container-valued parameter the decoder steps on its JSON text. Bound for every environment, root, mode
+and every key / value list: `1 + Σ queryCost`, with `queryCost (key, values) = 2·|key| + 4 + |values| +
+docBound values`, `docBound [v] = anyFactor c · 2 · (5·|TrimSpace v| + 11)` (only a single value can be a
+document) and `0` otherwise. Same cost model as `C06_linear_tree` (visits, not instructions: `findProp`,
+`propertyName` / `ToLowerCamel`, `seen.contains`, `updAt` cost nothing in the count; scalar conversion 1). -/
+theorem C06_query_steps (c : Cfg) (root : String) (kvs : List (Bytes × List Bytes)) :
+    decodeQueryN c root kvs ≤ 1 + (kvs.map (queryCost c)).sum :=
+  decodeQueryN_le c root kvs
+
+/-- **… linear in the size of the query** for a fresh codec: per key at most `2·|key| + |values| +
+1010·Σ|v| + 2226` steps (`TrimSpace` never lengthens a value: `trimSpace_length`; `strings.Split`
+returns at most `|key| + 1` segments: `splitDot_length`). Together with `C06_query_no_panic` this is
+the query half of "return either success or an error in time bounded by the input size". -/
+theorem C06_query_linear (c : Cfg) (hd : c.anyDepth = 0) (root : String)
+    (kvs : List (Bytes × List Bytes)) :
+    decodeQueryN c root kvs ≤ 1 + (kvs.map queryCostLin).sum :=
+  decodeQueryN_linear c hd root kvs
+
+/-- the query step count is not vacuous: `name=x` takes 9 steps, `w.s=x&n=5` takes 14 -/
+example : decodeQueryN { env := sampleEnv, O := default } "t.M" [(ascii "name", [ascii "x"])] = 9 := by decide
+example : decodeQueryN { env := sampleEnv, O := default } "t.M"
+    [(ascii "w.s", [ascii "x"]), (ascii "n", [ascii "5"])] = 14 := by decide
 
 /-! ## source facts
 Obligations over `J5V.Generated.Codec` (regenerated from /repo's current source by extract/codec.go at
